@@ -174,8 +174,9 @@ static bool eval(Op op, const ll* a, const ll* b, ll sc, std::string& out) {
     case VECTORIZED: out = canon(Vec::vectorized(s)); return true;
     case CTOR1: out = canon(Vec(s)); return true;
     case NEG: out = canon(-v); return true;
-    case NORMALIZED: if (all_zero<S, N>(a)) return false; out = canon(Vec(v.normalized())); return true;
-    case NORMALIZE: { if (all_zero<S, N>(a)) return false; Vec r = v; r.normalize(); out = canon(r); return true; }
+    // zero vector, or (unsigned wrap-around) zero squared norm: division by zero, outside the contract
+    case NORMALIZED: if (all_zero<S, N>(a) || v.sqrnorm() == 0) return false; out = canon(Vec(v.normalized())); return true;
+    case NORMALIZE: { if (all_zero<S, N>(a) || v.sqrnorm() == 0) return false; Vec r = v; r.normalize(); out = canon(r); return true; }
     case NORMALIZECOND: { Vec r = v; r.normalize_cond(); out = canon(r); return true; }
     case HOMOGENIZED:
         if constexpr (N == 4) { if ((S)a[3] == (S)0) return false; out = canon(Vec(v.homogenized())); return true; }
@@ -593,6 +594,8 @@ template <class MeshT> static void dump_geometry(const MeshT& m, const std::stri
         if (k < 3) continue;
         puts((head("nattr_f", fh.idx(), k) + pcs + " = " + pos3(na[fh])).c_str());
         puts(("G " + id + " nattr_hf " + std::to_string(fh.idx()) + " 1 " + pos3(na[fh]) + " = " + pos3(na[m.halfface_handle(fh, 0)]) + " " + pos3(na[m.halfface_handle(fh, 1)])).c_str());
+        const NormalAttrib<MeshT>& cna = na;   // the const overloads
+        puts(("G " + id + " nattr_hfc " + std::to_string(fh.idx()) + " 1 " + pos3(cna[fh]) + " = " + pos3(cna[m.halfface_handle(fh, 0)]) + " " + pos3(cna[m.halfface_handle(fh, 1)])).c_str());
     }
     for (auto vh_ : m.vertices()) {
         std::set<HalfFaceHandle> hfs;
@@ -614,6 +617,10 @@ template <class MeshT> static VertexHandle addv(MeshT& m, int x, int y, int z) {
 
 static const int SCALES[] = {1, 1, 2, 3, 6, 12, 60, 120, 840};
 
+// Exactness budget (matters for Vec3f, 24-bit mantissa): coordinates are scale * k with |k| <= ~50 and
+// scale <= 840 = 2^3*105; differences of ADJACENT vertices have |k| <= 10, so every product in the cross
+// product (840^2 * k1 * k2 = 2^6 * 11025 * k1*k2) and every coordinate sum of a barycenter is exactly
+// representable; only sqrnorm/sqrt/division round, which the evaluator judges by rounding bounds.
 template <class VecT> static void gen_meshes(bool thorough, uint64_t seed, const char* tag) {
     typedef GeometryKernel<VecT, TetrahedralMeshTopologyKernel> TetM;
     typedef GeometryKernel<VecT, HexahedralMeshTopologyKernel> HexM;
